@@ -8,12 +8,16 @@ Property theorems about `Model/Wire.lean` (`wire::serialize` / `wire::deserializ
                        65 535 bytes and `wire::serialize` does not panic on it;
 * `decode_encode`    — …and decodes to an equal message, with nothing left over;
 * `encode_decode_canonical` — FALSE of the current code as a universal statement
-  (`…_counterexample`: `ZeroBytes::decode` ignores the padding values of ping/pong; plus the documented
-  exception, a node announcement without trailing user agent). Proved instead:
-  `encode_decode_canonical_partial` (any bytes that decode CLEANLY re-encode to exactly the same bytes) and
-  `encode_decode_canonical_exact` (clean is also necessary), where "clean" excludes exactly
-  (p) a ping/pong padding byte ≠ 0 and (a) a node announcement whose user agent is absent or cut short
-  (`lossy_cases` spells both out on the bytes);
+  (`…_counterexample`: `ZeroBytes::decode` ignores the padding values of ping/pong — known finding
+  `pingpong-nonzero-padding`; plus the documented exception, a node announcement without trailing user
+  agent). Proved instead: `encode_decode_canonical_partial` (any bytes that decode CLEANLY re-encode to
+  exactly the same bytes) and `encode_decode_canonical_exact` (clean is also necessary), where "clean"
+  excludes exactly (p) a ping/pong padding byte ≠ 0 and (a) a node announcement with NOTHING after the
+  nonce (`lossy_cases` spells both out on the bytes). A user agent that is cut short is rejected
+  (`truncated_agent_rejected`, regression for `fix:` 7273931);
+* `reencode_ok` / `reencode_oversize_counterexample` — a cleanly decoded message of at most 65 535 bytes
+  re-serializes to its input; known finding `decoded-message-not-encodable`: ping/pong counts above
+  `MAX_*_ZEROES` decode (inside a large gossip frame) to a message `wire::serialize` panics on;
 * `signed_bytes_are_sent_bytes` — for a cleanly decoded announcement, the bytes `Announcement::verify`
   re-serializes and checks the signature over are the bytes the sender sent after type, node id, signature.
 -/
@@ -70,19 +74,18 @@ theorem encode_decode_canonical_exact (env : Env) (b : Bytes) (m : Msg) (g : Gho
   simp [eq_comm]
 
 /-- What the two excluded classes are, on the bytes: (p) a ping or pong whose padding `pad` contains a
-non-zero byte; (a) a node announcement whose bytes after the nonce (`tail`) are not a complete string:
-nothing at all — the documented exception — or a user agent cut short. -/
+non-zero byte; (a) a node announcement that ends right after the nonce — the documented exception. -/
 theorem lossy_cases (env : Env) (b : Bytes) (m : Msg) (g : Ghost)
     (h : deserializeG env b = .ok (m, g) []) (hlossy : g.clean = false) :
     (∃ p, ∃ pad : Bytes, m = .ping p pad.length ∧ pad.any (· ≠ 0) = true ∧
       b = encU16 10 ++ (encU16 p ++ (encU16 pad.length ++ pad))) ∨
     (∃ pad : Bytes, m = .pong pad.length ∧ pad.any (· ≠ 0) = true ∧
       b = encU16 12 ++ (encU16 pad.length ++ pad)) ∨
-    (∃ node sig v feat ts al addrs nonce tail,
-      m = .nodeAnn node sig v feat ts al addrs nonce defaultAgent ∧ agent tail = .incomplete ∧
-      b = encU16 2 ++ (nodeAnnHead node sig v feat ts al addrs nonce ++ tail)) := by
+    (∃ node sig v feat ts al addrs nonce,
+      m = .nodeAnn node sig v feat ts al addrs nonce defaultAgent ∧
+      b = encU16 2 ++ nodeAnnHead node sig v feat ts al addrs nonce) := by
   rcases decodeMsgG_cases env (deserializeG_ok h).1 with ⟨rfl, _⟩ | ⟨p, pad, _, rfl, rfl, hb⟩ |
-    ⟨pad, _, rfl, rfl, hb⟩ | ⟨node, sig, v, feat, ts, al, addrs, nonce, tail, rfl, rfl, _, hinc, hb⟩
+    ⟨pad, _, rfl, rfl, hb⟩ | ⟨node, sig, v, feat, ts, al, addrs, nonce, rfl, rfl, _, hb⟩
   · simp [Ghost.clean] at hlossy
   · left
     refine ⟨p, pad, rfl, ?_, by simpa using hb⟩
@@ -91,7 +94,7 @@ theorem lossy_cases (env : Env) (b : Bytes) (m : Msg) (g : Ghost)
     refine ⟨pad, rfl, ?_, by simpa using hb⟩
     simpa [Ghost.clean] using hlossy
   · right; right
-    exact ⟨node, sig, v, feat, ts, al, addrs, nonce, tail, rfl, hinc, hb⟩
+    exact ⟨node, sig, v, feat, ts, al, addrs, nonce, rfl, hb⟩
 
 /-- The full statement `∀ b m, deserialize b = ok m → encode m = b` is FALSE of the current code.
 **Known finding** (class `pingpong-nonzero-padding`): a ping with one padding byte `0xff`. -/
@@ -118,14 +121,13 @@ theorem encode_decode_canonical_counterexample_no_agent :
   ⟨.nodeAnn (List.replicate 32 0x11) (List.replicate 64 0x22) 1 0 0 [0x61] [] 0 defaultAgent,
     by decide, by decide, by decide⟩
 
-/-- **New finding** (class `node-ann-truncated-agent`): the same happens when the user agent is CUT SHORT
-(length byte 9, only `/rad` present): the reader runs dry inside the string, the error is EOF, the default
-is substituted and — the cursor being at the end — `wire::deserialize` does not see the stray bytes. -/
-theorem encode_decode_canonical_counterexample_truncated_agent :
-    ∃ m : Msg, deserialize ⟨fun _ => false⟩ (nodeAnnNoAgent ++ [0x09, 0x2f, 0x72, 0x61, 0x64]) = .ok m [] ∧
-      m.encode = nodeAnnNoAgent ++ encStr defaultAgent :=
-  ⟨.nodeAnn (List.replicate 32 0x11) (List.replicate 64 0x22) 1 0 0 [0x61] [] 0 defaultAgent,
-    by decide, by decide⟩
+/-- Regression for `fix:` 7273931 (oracle class `node-ann-truncated-agent`): a user agent that is CUT SHORT
+(length byte 9, only `/rad` present) is no longer treated like an absent one: decoding fails with an EOF
+error (`incomplete`; inside a complete gossip frame that is `invalid`). Before the fix these bytes decoded
+to the announcement with the default agent. -/
+theorem truncated_agent_rejected :
+    deserialize ⟨fun _ => false⟩ (nodeAnnNoAgent ++ [0x09, 0x2f, 0x72, 0x61, 0x64]) = .incomplete ∧
+    deserialize ⟨fun _ => false⟩ (nodeAnnNoAgent ++ [0x09]) = .incomplete := by decide
 
 /-- A decoded message always re-encodes (no assertion of `&str::encode` can fire); if it was decoded
 cleanly from at most 65 535 bytes, `wire::serialize` returns exactly those bytes. -/
@@ -138,7 +140,7 @@ theorem reencode_ok (env : Env) (b : Bytes) (m : Msg) (g : Ghost)
   rw [he, hs]
   simp [hlen]
 
-/-- **New finding** (class `decoded-message-not-encodable`): `ZeroBytes` accepts any `u16` count, but a ping
+/-- **Known finding** (class `decoded-message-not-encodable`): `ZeroBytes` accepts any `u16` count, but a ping
 with more than `MAX_PING_ZEROES = 65 529` zeroes (it can arrive inside a gossip frame, whose payload may be
 longer than 64 KiB) is a `Message` that `wire::serialize` panics on ("Message exceeds maximum size"). -/
 theorem reencode_oversize_counterexample :
@@ -196,7 +198,7 @@ theorem inventory_refs_always_canonical (env : Env) (b : Bytes) (m : Msg) (g : G
     m.encode = b := by
   apply encode_decode_canonical_partial env b m g h
   rcases decodeMsgG_cases env (deserializeG_ok h).1 with ⟨rfl, _⟩ | ⟨p, pad, _, rfl, _, _⟩ |
-    ⟨pad, _, rfl, _, _⟩ | ⟨node, sig, v, feat, ts, al, addrs, nonce, tail, rfl, _, _, _, _⟩
+    ⟨pad, _, rfl, _, _⟩ | ⟨node, sig, v, feat, ts, al, addrs, nonce, rfl, _, _, _⟩
   · rfl
   · rcases hm with ⟨_, _, _, _, h'⟩ | ⟨_, _, _, _, _, h'⟩ <;> cases h'
   · rcases hm with ⟨_, _, _, _, h'⟩ | ⟨_, _, _, _, _, h'⟩ <;> cases h'
